@@ -19,7 +19,8 @@ for d in sorted(glob.glob("/verif/seeded/*")):
     props = EXTRA.get(name, [meta["property"]])
     res = {}
     for p in props:
-        o = subprocess.run(["/verif/scripts/try_mutant.sh", d + "/patch.diff", p], capture_output=True, text=True, timeout=3600)
+        o = subprocess.run(["/verif/scripts/try_mutant.sh", d + "/patch.diff", p], capture_output=True, text=True, timeout=3600,
+                           env=dict(os.environ, VERIF_MAX_CHILD_SECONDS=os.environ.get("VERIF_MAX_CHILD_SECONDS", "240")))
         lines = [l for l in (o.stdout + o.stderr).splitlines() if l.startswith(("== ", "VIOLATION", "INCONCLUSIVE", "vcheck:", "patch", "/repo"))]
         res[p] = [l[:300] for l in lines[:6]]
     meta["checks"] = res
